@@ -47,6 +47,7 @@ var ufDecls = []ufDecl{
 	{"pf_val", "(declare-fun pf_val (Str) F64)"},
 	{"pf_err", "(declare-fun pf_err (Str) Err)"},
 	{"itoa", "(declare-fun itoa (Int) Str)"},
+	{"fmt_v", "(declare-fun fmt_v (Any) Str)"},
 	{"f64_lt", "(declare-fun f64_lt (F64 F64) Bool)"},
 	{"f64_le", "(declare-fun f64_le (F64 F64) Bool)"},
 	{"f64_eq", "(declare-fun f64_eq (F64 F64) Bool)"},
@@ -85,6 +86,9 @@ var axioms = []axiom{
 	{[]string{"u8bnd"}, "(assert (forall ((s Str) (q Int)) (! (=> (and (<= 0 q) (< q (slen s)) (u8bnd s q)) (u8bnd s (+ q (u8width s q)))) :pattern ((u8width s q)))))", "UTF8"},
 	// STR: replacing something that does not occur changes nothing
 	{[]string{"str_replace"}, "(assert (forall ((s Str) (x Str) (y Str)) (! (=> (not (str_contains s x)) (= (str_replace s x y) s)) :pattern ((str_replace s x y)))))", "STR"},
+	// FMT: a number prints as at least one character
+	{[]string{"itoa"}, "(assert (forall ((i Int)) (! (>= (slen (itoa i)) 1) :pattern ((itoa i)))))", "FMT"},
+	{[]string{"fmt_v"}, "(assert (forall ((a Any)) (! (=> (or ((_ is A_int) a) ((_ is A_float64) a)) (>= (slen (fmt_v a)) 1)) :pattern ((fmt_v a)))))", "FMT"},
 	// UNI: ASCII behaviour of the unicode predicates
 	{[]string{"uni_digit"}, "(assert (forall ((r Int)) (! (=> (< r 128) (= (uni_digit r) (and (<= 48 r) (<= r 57)))) :pattern ((uni_digit r)))))", "UNI"},
 	{[]string{"uni_letter"}, "(assert (forall ((r Int)) (! (=> (< r 128) (= (uni_letter r) (or (and (<= 65 r) (<= r 90)) (and (<= 97 r) (<= r 122))))) :pattern ((uni_letter r)))))", "UNI"},
